@@ -9,27 +9,27 @@ CHECKS = {
   "Trusted: reference encoder (self-checked against system liblzma on every run), rustc/std. lc+lp>4 cannot be arbitrated by liblzma.",
   TECH + ": reference-model differential oracle + decoder hook coverage"),
  "C02": ("exploration", "§4 C02",
-  "Generated LZMA2 chunk sequences (all reset classes, inherited state, property changes, size extremes, liblzma-written streams) decoded through three entry points and compared with interpret(); every stream is also decoded by liblzma; Chunk hooks report classes and transitions parsed.",
+  "Generated LZMA2 chunk sequences (all reset classes, inherited state, property changes, size extremes, liblzma-written streams) decoded through three entry points and compared with interpret(); every stream is also decoded by liblzma; Chunk hooks report classes and transitions parsed. Size extremes include compressed payloads of exactly 65535 and 65536 bytes.",
   "Trusted: reference LZMA2 writer (cross-decoded by liblzma per case).",
   TECH + ": reference-model differential oracle + chunk hook coverage"),
  "C03": ("exploration", "§4 C03",
-  "Generated .xz files (0-300 blocks, three check types, all size-field combinations, header padding to 1024 bytes, 1-4 byte integers, thorough: a 256 MiB block) and liblzma-written files decoded under every reader kind and compared with the block plaintexts; liblzma decodes each generated file too.",
+  "Generated .xz files (0-300 blocks, three check types, all size-field combinations, header padding to 1024 bytes, 1-4 byte integers, thorough: a 256 MiB block) and liblzma-written files decoded under every reader kind and compared with the block plaintexts; liblzma decodes each generated file too. Includes block sizes on every multi-byte-integer boundary and files with 126-140 blocks.",
   "Trusted: reference XZ writer (cross-decoded by liblzma per case). 6-9 byte integers are unreachable in valid files.",
   TECH + ": reference-model differential oracle over generated containers"),
  "C06": ("fault_enumeration", "§4 C06",
-  "Per valid base file: every integrity/size field replaced by boundary values and every single-bit variation with enclosing CRCs recomputed (must be Err), every single-bit flip of the file (never Ok with different output under CRC32/CRC64; Err outside the LZMA2 payload), every truncation (Err); in overflow-checked and release arithmetic. Exhaustive per base file, base files sampled.",
+  "Per valid base file: every integrity/size field replaced by boundary values and every single-bit variation with enclosing CRCs recomputed (must be Err), every single-bit flip of the file (never Ok with different output under CRC32/CRC64; Err outside the LZMA2 payload), every truncation (Err); in overflow-checked and release arithmetic. Exhaustive per base file, base files sampled. Also structural index faults (records dropped / added with the count following) and sampled pairs of field faults.",
   "Expected verdicts by construction; strict XZ parser (self-checked against liblzma) confirms every field mutant is invalid.",
   TECH + ": exhaustive per-input fault enumeration with CRC-repairing mutators"),
  "C17": ("fault_enumeration", "§4 C17",
-  "Per valid LZMA2 base stream: each framing field at every chunk position set to boundary-violating values, every truncation point; mutants confirmed invalid by the reference reader; three entry points.",
+  "Per valid LZMA2 base stream: each framing field at every chunk position set to boundary-violating values, every truncation point; mutants confirmed invalid by the reference reader; three entry points. A systematic family walks every control byte and every invalid property byte, also on chunks above 64 KiB (non-zero size bits); raw-chunk-only size mutations are judged by the reference in both directions.",
   "Expected Err by construction. Under-consumption leniencies of lzma-rs are counted, not judged (not in the statement's list).",
   TECH + ": per-input framing-fault enumeration"),
  "C18": ("exploration", "§4 C18",
-  "Well-formed files using each unsupported feature (16 check IDs, delta/BCJ chains written by liblzma, unknown filter IDs, every reserved bit, concatenated streams, stream padding) must be refused; liblzma confirms the files are well-formed.",
+  "Well-formed files using each unsupported feature (16 check IDs, delta/BCJ chains written by liblzma, unknown filter IDs, every reserved bit, concatenated streams, stream padding) must be refused; liblzma confirms the files are well-formed. Also the unsupported feature in a later block, chains of 1-4 filters, filter IDs congruent to 0x21 modulo 2^8/2^16/2^32, padding up to 16 KiB.",
   "Zero-block SHA-256 file: either verdict accepted (nothing to verify).",
   TECH + ": negative oracle over enumerated feature families"),
  "C04": ("exploration", "§4 C04",
-  "Every encoder (lzma x 3 options, lzma2, xz) over boundary lengths, 7 content kinds and 5 input fragmentations, plus a hook-guided search for carry / pending-0xFF paths in the range encoder; each output must decode back with lzma-rs, pass the reference decoder / strict LZMA2 reader / strict XZ parser (header fields, exact payload length) and decode with liblzma.",
+  "Every encoder (lzma x 3 options, lzma2, xz) over boundary lengths, 7 content kinds and 5 input fragmentations, plus a hook-guided search for carry / pending-0xFF paths in the range encoder; each output must decode back with lzma-rs, pass the reference decoder / strict LZMA2 reader / strict XZ parser (header fields, exact payload length) and decode with liblzma. Inputs constructed from an exact model of the literal coder drive the real encoder through pending-0xFF runs of 8-14 bytes resolved with and without a carry (observed by the RcShift hook).",
   "Trusted: reference decoder, strict parsers (self-checked) and system liblzma as independent conforming decoders.",
   TECH + ": round-trip + independent-decoder oracle, RcShift hook feedback"),
  "C05": ("exploration", "§4 C05",
@@ -37,43 +37,43 @@ CHECKS = {
   "Oracle is lzma-rs' own one-shot decoder (equivalence property), pinned by C01/C08.",
   TECH + ": differential history monitor with exhaustive per-input cut enumeration"),
  "C10": ("exploration", "§4 C10",
-  "Unlimited run measures the window actually needed (WinGrow hook); ten limit values around need and dict through one-shot / Stream / raw decoder: sufficient limits reproduce the unlimited result, insufficient ones fail, the hook never reports a buffer above the limit; counting allocator as coarse second witness.",
+  "Unlimited run measures the window actually needed (WinGrow hook); ten limit values around need and dict through one-shot / Stream / raw decoder: sufficient limits reproduce the unlimited result, insufficient ones fail, the hook never reports a buffer above the limit; counting allocator as coarse second witness. Header dictionary fields below 4096 and off the 4096 grid; limits 2^32 and 2^32+1.",
   "need is measured by the hook; allocator bound deliberately loose.",
   TECH + ": invariant hook on window growth + differential run + counting allocator"),
  "C15": ("exploration", "§4 C15",
-  "Per valid stream with allow_incomplete: a snapshot after every input length (1-byte writes) and three more chunkings check produced >= D(n-64), monotonicity and the prefix relation; finish after every prefix (short streams) / sampled prefixes under four chunkings must succeed and return a long-enough prefix. D from the reference decoder's per-symbol table.",
+  "Per valid stream with allow_incomplete: a snapshot after every input length (1-byte writes) and three more chunkings check produced >= D(n-64), monotonicity and the prefix relation; finish after every prefix (short streams) / sampled prefixes under four chunkings must succeed and return a long-enough prefix. D from the reference decoder's per-symbol table. Includes near-maximal (17-18 byte) symbols and just-sufficient memory limits.",
   "produced-so-far read through the snapshot hook; append-only sink.",
   TECH + ": online trace checker over snapshot history against reference per-symbol table"),
  "C16": ("exploration", "§4 C16",
-  "Random call histories (write/empty write/flush/get_output/finish) over six scenarios continued up to 50 calls past the latch event; an online 3-state latch checker judges each call at the API boundary; snapshot hook confirms the internal phase.",
+  "Random call histories (write/empty write/flush/get_output/finish) over six scenarios continued up to 50 calls past the latch event; an online 3-state latch checker judges each call at the API boundary; snapshot hook confirms the internal phase. Nine scenarios incl. errors inside payload bytes staged with a 5-byte header arriving in pieces, invalid properties bytes in pieces, unusual sink error kinds.",
   "The statement is the oracle.",
   TECH + ": online latch-automaton checker over recorded call histories"),
  "C07": ("exploration", "§4 C07",
-  "Hostile bytes from 9 sources through 6 entry points (all options, memlimits, raw constructor parameter grid, Stream under random chunking) with three monitors per execution: panic capture, a logical step budget fed by Tick hooks at every loop head, and a counting allocator with a non-storing capped sink; run in overflow-checked and in release arithmetic; thorough adds a Miri slice.",
+  "Hostile bytes from 9 sources through 6 entry points (all options, memlimits, raw constructor parameter grid, Stream under random chunking) with three monitors per execution: panic capture, a logical step budget fed by Tick hooks at every loop head, and a counting allocator with a non-storing capped sink; run in overflow-checked and in release arithmetic; thorough adds a Miri slice. Also reuse histories on one raw decoder and structured multi-field extremes behind repaired CRCs; a single allocation request of 32 GiB or more is reported as a violation instead of aborting the process.",
   "Bounds: ticks <= 64 x (input + produced) + 4096; peak heap <= 8 MiB + 8 x (consumed + produced). Constructor panics on out-of-range lc/lp/pb count as 'not accepted'.",
   TECH + ": panic / step-budget / counting-allocator monitors under hostile workload (+ Miri slice)"),
  "C12": ("fault_enumeration", "§4 C12",
-  "Per job (11 operations: decoders, raw decoders, Stream, all encoders): every sink write k failing, flush failing, every source call k failing, Interrupted once, underlying reads failing behind BufReaders, short-writing sinks; injected fault => Err and sink is a prefix of the fault-free output; Ok => sink equals it; LZMA/LZMA2 decoders leave nothing unflushed.",
+  "Per job (11 operations: decoders, raw decoders, Stream, all encoders): every sink write k failing, flush failing, every source call k failing, Interrupted once, underlying reads failing behind BufReaders, short-writing sinks; injected fault => Err and sink is a prefix of the fault-free output; Ok => sink equals it; LZMA/LZMA2 decoders leave nothing unflushed. Also other error kinds (UnexpectedEof, WouldBlock, WriteZero, ...) and two-event faults (short-writing sink whose k-th write fails).",
   "Oracle = fault-free run of the same call. Exhaustive in k per job up to the stated caps; jobs sampled.",
   TECH + ": exhaustive per-input I/O fault injection with prefix oracle"),
  "C13": ("exploration", "§4 C13",
-  "Per input (valid and invalid, 8 sources, 5 decoders) the slice-reader run is compared with Cursor, BufReader of every capacity 1..64, and randomised short-read readers: same verdict, and on success same bytes and consumed count.",
+  "Per input (valid and invalid, 8 sources, 5 decoders) the slice-reader run is compared with Cursor, BufReader of every capacity 1..64, and randomised short-read readers: same verdict, and on success same bytes and consumed count. Also BufReader capacities equal to every field boundary of generated .xz files (+-1).",
   "Differential against lzma-rs' own slice-reader run; error text differences are warnings.",
   TECH + ": differential monitor over reader fragmentations"),
  "C14": ("exploration", "§4 C14",
-  "Random histories of decompress(valid/truncated/corrupt) and reset calls on raw LzmaDecoder and Lzma2Decoder, up to 12 (thorough 200) reuse cycles; after every reset the next decode is compared in full (verdict incl. text, bytes, consumed) with a freshly constructed decoder; normalised Debug output as extra witness.",
+  "Random histories of decompress(valid/truncated/corrupt) and reset calls on raw LzmaDecoder and Lzma2Decoder, up to 12 (thorough 200) reuse cycles; after every reset the next decode is compared in full (verdict incl. text, bytes, consumed) with a freshly constructed decoder; normalised Debug output as extra witness. A digest hook over the whole adaptive state is compared after every reset; on a difference the recorded history is replayed to search for a distinguishing stream.",
   "3-line model of the size in effect (reset(None) keeps it).",
   TECH + ": differential history monitor (reset vs fresh)"),
  "C08": ("exploration", "§4 C08",
-  "Table-driven: option x header-field x provided-size x stream-shape cells, each decided by the reference decoder run with the size in effect, executed through the one-shot API and through Stream; header byte consumption observed on the reader.",
+  "Table-driven: option x header-field x provided-size x stream-shape cells, each decided by the reference decoder run with the size in effect, executed through the one-shot API and through Stream; header byte consumption observed on the reader. Provided sizes include 2^64-1, 2^64-2, 2^63, 2^32 and len+2^32; outputs ending exactly on a window multiple with every kind of last symbol.",
   "Trusted: reference decoder. The documented clean-EOF leniency is accepted either way.",
   TECH + ": rule-table oracle over generated streams"),
  "C09": ("exploration", "§4 C09",
-  "Streams with exactly one out-of-window copy (9 kinds x 6 positions relative to the wrap point, both window types) must fail and must not deliver fabricated bytes; the Sym hook proves the intended distance was decoded.",
+  "Streams with exactly one out-of-window copy (9 kinds x 6 positions relative to the wrap point, both window types) must fail and must not deliver fabricated bytes; the Sym hook proves the intended distance was decoded. Also small memory limits, the Stream entry point, dictionary sizes off the usual grid, and a raw decoder reused without reset.",
   "Expected verdict is Err by construction.",
   TECH + ": negative oracle by construction + Sym hook"),
  "C11": ("exploration", "§4 C11",
-  "Valid payloads followed by arbitrary bytes under 6 reader kinds: the reader's logical position after success must equal the payload length computed by the reference encoder; whole-file decoders must reject trailing bytes.",
+  "Valid payloads followed by arbitrary bytes under 6 reader kinds: the reader's logical position after success must equal the payload length computed by the reference encoder; whole-file decoders must reject trailing bytes. Includes payloads constructed so that the range register is exactly 2^24 after the last symbol.",
   "Trusted: reference encoder's payload length (liblzma's LZMA2 decoder accepts it only if exact).",
   TECH + ": reader-position probe against reference payload length"),
 }
